@@ -458,6 +458,12 @@ def tame(r, ci=False, subj=None):
     return r
 
 
+def tame_subj(r, strs):
+    """the characters on which the readings of set algebra under w/nocase must agree for a node to stay compared: everything the case is
+    evaluated on -- the subject characters and the alphabet on which the engine stage compares char-set states"""
+    return subj_of(strs) | set(engine_alphabet(r, strs))
+
+
 def subj_of(strs):
     out = set()
     for s in strs:
@@ -697,7 +703,7 @@ def fold_stage(ctx, exe, d, cases, label):
     proved fold_spans (successive leftmost-longest matches, each in its true context inside the subject), for greedy SREs"""
     import time
     t0 = time.time()
-    cases = [(tame(r, False, subj_of(strs)), strs) for r, strs in cases]
+    cases = [(tame(r, False, tame_subj(r, strs)), strs) for r, strs in cases]
     reqs = ["G %s%s" % (proto(r), "".join(" | " + sfield(s) for s in strs)) for r, strs in cases]
     mo = ctx.run_model(exe, reqs)
     keep = [(c, m.split(" ")) for c, m in zip(cases, mo) if not m.startswith("ERR") and m[0] == "0"]
@@ -1097,6 +1103,7 @@ def engine_stage(ctx, exe, d, cases, per_sre, label="engine"):
     ig = run_driver_lines(d, glines)
     it = run_driver_lines(d, tlines)
     bad = {}            # index of SRE -> first description of the difference
+    not_wf = []
     nums = {}
     internal_missing = False
     for k, ((r, strs), m, i) in enumerate(zip(uniq, mg, ig)):
@@ -1111,6 +1118,8 @@ def engine_stage(ctx, exe, d, cases, per_sre, label="engine"):
         if i.startswith("ERR") or i.startswith("Y !"):
             bad.setdefault(k, "graph dump failed: %s" % i[:200])
             continue
+        if " wf0" in m.partition("|")[0]:
+            not_wf.append(scm(r))     # outside the hypothesis wf_x of the engine theorems (still compared)
         cm, nm = canon_graph(m)
         ci_, ni = canon_graph(i[2:])
         nums[k] = (nm, ni)
@@ -1166,7 +1175,8 @@ def engine_stage(ctx, exe, d, cases, per_sre, label="engine"):
     if uniq and 0 in nums:
         ctx.sample(dict(kind=label, sre=scm(uniq[-1][0]), model_graph=mg[-1][:300], impl_graph=(ig[-1] or "")[:300],
                         model_trace=mt[-1][:300] if mt else None, impl_trace=(it[-1] or "")[:300] if it else None))
-    ctx.note("stage %s: %d state graphs, %d simulation traces, %d SREs differ, %.1fs" % (label, len(uniq), len(tmeta), len(bad), time.time() - t0))
+    ctx.note("stage %s: %d state graphs, %d simulation traces, %d SREs differ, %d SREs outside wf_x%s, %.1fs"
+             % (label, len(uniq), len(tmeta), len(bad), len(not_wf), (" e.g. " + not_wf[0]) if not_wf else "", time.time() - t0))
 
 
 def load_corpus(fold=False):
@@ -1211,7 +1221,7 @@ def run(ctx):
 
     def go(cases, label):
         t0 = time.time()
-        cases = [(tame(r, False, subj_of(strs)), strs) for r, strs in cases]
+        cases = [(tame(r, False, tame_subj(r, strs)), strs) for r, strs in cases]
         for r, strs in cases:
             used.update(cps_of(r))
             for s in strs:
@@ -1285,7 +1295,7 @@ def run(ctx):
         for s in rand_strings(rng, alpha, 6, 9):
             a = rng.randrange(0, len(s) + 1)
             xs.append((s, a, rng.randrange(a, len(s) + 1)))
-        r = tame(r, False, subj_of(xs))
+        r = tame(r, False, tame_subj(r, [x[0] for x in xs]))
         rcases.append((r, xs))
         used.update(cps_of(r))
         for s, _, _ in xs:
@@ -1295,7 +1305,7 @@ def run(ctx):
         for s in rng.sample(strs3, 6 if T else 4):
             a = rng.randrange(0, len(s) + 1)
             xs.append((s, a, rng.randrange(a, len(s) + 1)))
-        rcases.append((tame(r, False, subj_of(xs)), xs))
+        rcases.append((tame(r, False, tame_subj(r, [x[0] for x in xs])), xs))
     t0 = time.time()
     compare(ctx, exe, d, rcases, "start-end-arguments", ranged=True)
     ctx.note("stage start-end-arguments: %d SREs, %d calls, %.1fs" % (len(rcases), sum(len(x[1]) for x in rcases), time.time() - t0))
